@@ -1,2 +1,121 @@
-From ZC Require Import Model.Base Model.Register Model.Node.
-Example C09_placeholder : True. Proof. exact I. Qed.
+(* C09 - registration probes first, detects conflicts, then announces completely. Statements only.
+   Model/Register.v: async_check_service as a coroutine resumed turn by turn (the cache is arbitrary between turns and fixed inside one),
+   _async_broadcast_service as a task, register_finish = registry.async_add + announcement task; composed into Model/Node.v and tied to
+   the real instance by label replay (Corr/Node.v).  Vocabulary (Proofs/C09_turn.v, C09_run.v): taken_at / free_at c now s = the cache holds
+   (does not hold) an unexpired pointer type -> name of s; probe_of now s = CProbe now (QU PTR question for the type) (pointer type -> name);
+   run c0 t0 s allow strict [(c1,t1);...] = check_start followed by one check_turn per element (defined only while the previous output
+   ended in CWait and times do not decrease); events = every output tagged with the cache of its turn and the name in force;
+   on_time = no turn later than the wake-up the coroutine asked for; punctual = exactly then; cand inst ty n = inst-n.ty. *)
+From ZC Require Import Model.Base Model.PyRec Model.Dict Model.Names Model.Cache Model.Respond Model.Register Gen.Const Gen.DnsPure
+  Spec.AnswerSpec Proofs.C03_reg Proofs.C09_dec Proofs.C09_turn Proofs.C09_run Proofs.C09_register.
+
+(* no conflict and a punctual loop: exactly probe, wait 175, probe, wait 175, probe, done - with the name unchanged *)
+Theorem C09_quiet_run : forall c0 t0 s allow strict ts tr,
+  run c0 t0 s allow strict ts = Some tr -> (forall st, In st tr -> free_at (st_cache st) (st_now st) s) -> punctual tr ->
+  length tr = S (length ts) /\ (length tr <= 3)%nat /\ map step_view tr = firstn (length tr) (quiet_steps t0 s).
+Proof. exact quiet_run. Qed.
+
+(* whatever happened before (conflicts, renames, early wake-ups): a registration that completes has sent three probes for the final name
+   175 ms apart, nothing but waits in between, the name was free in the cache at each of the three instants, and the check returns in the
+   very turn of the third probe (announcements can only follow it) *)
+Theorem C09_three_probes : forall c0 now0 s allow strict ts tr0 stf,
+  run c0 now0 s allow strict ts = Some (tr0 ++ [stf]) -> on_time (tr0 ++ [stf]) -> ends_with (st_outs stf) CDone ->
+  let sf := ck_svc (st_state stf) in
+  exists pre c1 t1 w1 c2 t2 w2 c3 t3,
+    events (tr0 ++ [stf]) = pre ++ [probe_ev c1 t1 sf] ++ w1 ++ [probe_ev c2 t2 sf] ++ w2 ++ [probe_ev c3 t3 sf; (c3, sf, CDone)] /\
+    only_waits sf w1 /\ only_waits sf w2 /\
+    t1 < t2 < t3 /\ t1 + 175 <= t2 /\ t2 + 175 <= t3 /\ t2 = t1 + 175 /\ t3 = t2 + 175 /\
+    free_at c1 t1 sf /\ free_at c2 t2 sf /\ free_at c3 t3 sf.
+Proof. exact done_after_three_probes_partial. Qed.
+
+(* the same without any assumption on the schedule: late turns can only stretch the gaps (or send overdue probes back to back) *)
+Theorem C09_three_probes_any_schedule : forall c0 now0 s allow strict ts tr0 stf,
+  run c0 now0 s allow strict ts = Some (tr0 ++ [stf]) -> ends_with (st_outs stf) CDone ->
+  let sf := ck_svc (st_state stf) in
+  exists pre c1 t1 w1 c2 t2 w2 c3 t3,
+    events (tr0 ++ [stf]) = pre ++ [probe_ev c1 t1 sf] ++ w1 ++ [probe_ev c2 t2 sf] ++ w2 ++ [probe_ev c3 t3 sf; (c3, sf, CDone)] /\
+    only_waits sf w1 /\ only_waits sf w2 /\ t1 + 175 <= t2 /\ t1 + 350 <= t3 /\ t2 <= t3 /\
+    free_at c1 t1 sf /\ free_at c2 t2 sf /\ free_at c3 t3 sf.
+Proof. exact done_after_three_probes_any_schedule. Qed.
+
+(* a name that is advertised in the cache at the last probe check is never registered *)
+Theorem C09_never_registers_taken_name : forall c0 now0 s allow strict ts tr0 stf,
+  run c0 now0 s allow strict ts = Some (tr0 ++ [stf]) -> ends_with (st_outs stf) CDone ->
+  current_entry_with_name_and_alias (st_cache stf) (st_now stf) (s_type (ck_svc (st_state stf))) (s_name (ck_svc (st_state stf))) = None.
+Proof. exact never_registers_taken_name. Qed.
+
+(* every probe is a QU PTR question for the type with the proposed pointer as authority, sent only for a name that is free at that instant *)
+Theorem C09_probe_shape : forall c now k k' outs t q auth, check_turn c now k = (k', outs) -> In (CProbe t q auth) outs ->
+  t = now /\ q = probe_question (ck_svc k') /\ auth = dns_pointer (ck_svc k') /\
+  p_name q = s_type (ck_svc k) /\ p_type_ q = C_TYPE_PTR /\ p_class_ q = C_CLASS_IN_UNIQUE /\
+  current_entry_with_name_and_alias c now (s_type (ck_svc k')) (s_name (ck_svc k')) = None.
+Proof. exact turn_probes. Qed.
+
+(* conflict without permission to rename: NonUniqueNameException, nothing sent *)
+Theorem C09_conflict_raises : forall c now k, ck_i k < 3 -> taken_at c now (ck_svc k) -> ck_allow k = false ->
+  check_turn c now k = (k, [CRaise NonUniqueName]).
+Proof. exact turn_conflict_no_rename. Qed.
+
+(* conflict with permission: the first free '-N' suffix from the running number on; every candidate passed over was taken; probing restarts
+   for the new name in the same turn *)
+Theorem C09_conflict_renames : forall c now k k' outs,
+  ck_i k < 3 -> taken_at c now (ck_svc k) -> ck_allow k = true -> check_turn c now k = (k', outs) -> (forall e, ~ In (CRaise e) outs) ->
+  exists N, ck_num k <= N /\ ck_num k' = N + 1 /\
+    ck_svc k' = with_name (ck_svc k) (cand (ck_instance k) (s_type (ck_svc k)) N) /\
+    s_name (ck_svc k') <> s_name (ck_svc k) /\
+    (forall j, ck_num k <= j < N -> name_taken c now (s_type (ck_svc k)) (cand (ck_instance k) (s_type (ck_svc k)) j)) /\
+    free_at c now (ck_svc k') /\
+    (forall t q auth, In (CProbe t q auth) outs -> t = now /\ q = probe_question (ck_svc k') /\ auth = dns_pointer (ck_svc k')) /\
+    In (probe_of now (ck_svc k')) outs.
+Proof. exact turn_rename_partial. Qed.
+
+(* the loops of the model never run out of fuel (the '-N' suffixes are pairwise different decimal numerals) *)
+Theorem C09_dec_injective : forall a b, 0 <= a -> 0 <= b -> dec a = dec b -> a = b.
+Proof. exact dec_inj. Qed.
+Theorem C09_fuel : forall c now k, 2 <= ck_num k -> 0 <= ck_i k -> ~ In (CRaise OtherError) (snd (check_turn c now k)).
+Proof. exact turn_never_out_of_fuel. Qed.
+
+(* announcements: three messages 225 ms apart, each with the PTR, SRV, TXT, every address and the NSEC record (iff an address family is
+   missing); cache-flush bit on every record but the shared PTR *)
+Theorem C09_announce_three : forall s a1 a2 a3, let recs := broadcast_records s None true in
+  announce_task s = announce_left s 3 /\
+  bcast_turn (announce_left s 3) a1 = (announce_left s 2, [BSend a1 recs; BSleep 225]) /\
+  bcast_turn (announce_left s 2) a2 = (announce_left s 1, [BSend a2 recs; BSleep 225]) /\
+  bcast_turn (announce_left s 1) a3 = (announce_left s 0, [BSend a3 recs; BEnd]) /\
+  (forall a, bcast_turn (announce_left s 0) a = (announce_left s 0, [BEnd])).
+Proof. exact announce_three. Qed.
+
+Theorem C09_announce_content : forall s, broadcast_records s None true =
+  [dns_pointer s; dns_service s; dns_text s] ++ map (a_record s) (s_v4 s) ++ map (aaaa_record s) (s_v6 s) ++ nsec_part s.
+Proof. exact broadcast_records_content. Qed.
+
+Theorem C09_nsec_iff : forall s,
+  (exists r, In r (broadcast_records s None true) /\ p_kind r = KNsec) <-> (s_v4 s = [] \/ s_v6 s = []).
+Proof. exact nsec_iff_family_missing. Qed.
+
+Theorem C09_flush_bits : forall s ov b, exists p rest, broadcast_records s ov b = p :: rest /\
+  p_kind p = KPointer /\ DNSEntry_unique p = false /\ (forall r, In r rest -> DNSEntry_unique r = true).
+Proof. exact broadcast_unique_flags. Qed.
+
+(* one instance never holds the same name twice *)
+Theorem C09_one_name_once : forall g k,
+  (register_finish g k = Raise ServiceNameAlreadyRegistered <-> In (lower (s_name (ck_svc k))) (map fst (g_services g))) /\
+  (forall e, register_finish g k = Raise e -> e = ServiceNameAlreadyRegistered).
+Proof. exact register_finish_fails_iff. Qed.
+
+Theorem C09_registry_stays_consistent : forall ops k g' b, register_finish (reg_run ops) k = Ok (g', b) ->
+  g' = reg_run (ops ++ [OpAdd (ck_svc k)]) /\ RegInv g' /\ NoDup (map fst (g_services g')).
+Proof. exact register_finish_reachable. Qed.
+
+(* the sketch "every turn's gap is 175" is false for late turns: overdue probes go out back to back *)
+Example C09_late_turn_refuted :
+  option_map (map st_outs) (run empty_cache 0 run_svc false true [(empty_cache, 1000)]) =
+  Some [[probe_of 0 run_svc; CWait 175]; [probe_of 1000 run_svc; probe_of 1000 run_svc; CDone]].
+Proof. exact late_turn_sends_probes_back_to_back. Qed.
+
+Print Assumptions C09_quiet_run. Print Assumptions C09_three_probes. Print Assumptions C09_three_probes_any_schedule.
+Print Assumptions C09_never_registers_taken_name. Print Assumptions C09_probe_shape. Print Assumptions C09_conflict_raises.
+Print Assumptions C09_conflict_renames. Print Assumptions C09_dec_injective. Print Assumptions C09_fuel.
+Print Assumptions C09_announce_three. Print Assumptions C09_announce_content. Print Assumptions C09_nsec_iff.
+Print Assumptions C09_flush_bits. Print Assumptions C09_one_name_once. Print Assumptions C09_registry_stays_consistent.
+Print Assumptions C09_late_turn_refuted.
